@@ -408,7 +408,7 @@ func (cl *cluster) key() string {
 	fmt.Fprintf(&b, "B %v sticky=%v task=%s adds=%v xferfail=%v/%d fiemapfail=%v/%d\n", bl, cl.stickyREST, cl.taskDesc(), pa, cl.failXfer, cl.cnt["transfers_failed"], cl.failFiemap, cl.cnt["fiemap_failures_injected"])
 	var ack []string
 	for id := 1; id <= cl.nWrites; id++ {
-		ack = append(ack, fmt.Sprintf("%v@%d", cl.acked[id], blockOf(id)))
+		ack = append(ack, fmt.Sprintf("%v@%d", cl.acked[id] && !cl.undone[id], blockOf(id)))
 	}
 	if cl.cB != nil {
 		vB := cl.cB.VerifView()
@@ -418,7 +418,7 @@ func (cl *cluster) key() string {
 		}
 		fmt.Fprintf(&b, "CB replicas=%v ro=%v fe=%v signals=%v clonestatus=%s cloneof=%d\n", vB.Replicas, vB.ReadOnly, vB.FrontendUp, cl.signalsB, st, cl.cloneOf)
 	}
-	fmt.Fprintf(&b, "M writes=%v snaps=%d adds=%d restarts=%d regs=%d reads=%d faults=%d lastsig=%+v\n", ack, cl.nSnaps, cl.nAdds, cl.nRestart, cl.nRegs, cl.nReads, cl.nFaults*100+cl.nResizes*10+cl.nTicks, cl.lastStartSignal())
+	fmt.Fprintf(&b, "M writes=%v snaps=%d adds=%d restarts=%d regs=%d reads=%d faults=%d lastsig=%+v\n", ack, cl.nSnaps, cl.nAdds, cl.nRestart, cl.nRegs, cl.nReads, cl.nFaults*100+cl.nResizes*10+cl.nTicks+cl.nReverts*10000+len(cl.goodSnaps)*100000, cl.lastStartSignal())
 	h := sha1.Sum([]byte(b.String()))
 	cl.lastKeyText = b.String()
 	return fmt.Sprintf("%x", h[:12])
@@ -761,6 +761,19 @@ func (cl *cluster) enabled() []string {
 			for _, m := range subsets(nonErr) {
 				if faultsLeft(m) {
 					out = append(out, fmt.Sprintf("Snap:%d", m))
+				}
+			}
+		case "Revert":
+			max := c.MaxReverts
+			if max == 0 {
+				max = 1
+			}
+			if cl.nReverts >= max || len(cl.goodSnaps) == 0 || len(v.Backends) == 0 {
+				continue
+			}
+			for _, m := range subsets(readers) {
+				if faultsLeft(m) {
+					out = append(out, fmt.Sprintf("Revert:%d", m))
 				}
 			}
 		case "MonFail":
